@@ -420,7 +420,16 @@ func (e *e2eClient) runCall(call func(context.Context, *mcp.Client) error, scrip
 	rec := &recorder{cancelAtWait: cancelAtWait, cancel: cancel, cancelReturn: cancelWait(), real: realWaits}
 	curRec.Store(rec)
 	defer curRec.Store(nil)
-	err := call(ctx, e.c)
+	// a panic inside the library client (in the caller's goroutine) is an outcome of this call, not the end of
+	// the monitor
+	err := func() (err error) {
+		defer func() {
+			if p := recover(); p != nil {
+				err = fmt.Errorf("PANIC in the library client: %v", p)
+			}
+		}()
+		return call(ctx, e.c)
+	}()
 	res := e2eResult{Seen: e.srv.takeSeen(), Err: err, Waits: rec.snapshot()}
 	if cancelAtWait == 0 && ctx.Err() != nil {
 		res.TimedOut = true
